@@ -1418,7 +1418,8 @@ func ruleBuilderNoSilentOutcome(r *Run, rule, m string) {
 	if !ok {
 		return
 	}
-	paths = OwnOnly(paths)
+	// the whole path is kept, inlined helpers included (a prologue shared by the methods, `if b.halted("X") { return b }`, holds
+	// the tests the refutation needs); effects are counted in the method's own code, a report through setErr at any depth
 	info := fl.Info
 	atom := func(e ast.Expr) (string, bool, bool) {
 		if isBuilderField(info, e, "emitted") {
@@ -1459,7 +1460,7 @@ func ruleBuilderNoSilentOutcome(r *Run, rule, m string) {
 			if e.Kind == EvCall && CalleeKey(e) == bKey("setErr") && setErrAt < 0 {
 				setErrAt = j
 			}
-			if e.Kind == EvAssign {
+			if e.Kind == EvAssign && e.Depth == 0 {
 				for _, l := range e.Lhs {
 					if !isLocal(l) {
 						if setErrAt >= 0 {
